@@ -101,7 +101,18 @@ func xTCPPair() (*net.TCPConn, *net.TCPConn) {
 	return a, b
 }
 
-func runXnode(c xnodeCase) (obs string) {
+// runXnode repeats a run whose attach did not complete inside its deadline (void, see runXnodeOnce).
+func runXnode(c xnodeCase) string {
+	for i := 0; i < 4; i++ {
+		if o := runXnodeOnce(c); o != "attach-void" {
+			return o
+		}
+		time.Sleep(50 * time.Millisecond)
+	}
+	return "attach-failed-4-times"
+}
+
+func runXnodeOnce(c xnodeCase) (obs string) {
 	defer func() {
 		if r := recover(); r != nil {
 			obs = "panic " + strings.ReplaceAll(fmt.Sprint(r), " ", "_")
@@ -165,8 +176,13 @@ func runXnode(c xnodeCase) (obs string) {
 	defer tgtConn.Close()
 	actx, acancel := context.WithTimeout(root, time.Duration(c.dl)*time.Millisecond)
 	defer acancel()
-	// the error is the mode-switch sentinel on success; a real failure shows as missing data below
-	_ = tgtNode.VerifForwardToSourceNode(actx, tunnelID, "node-S", &types.Connection{ID: "conn-xnode"}, tgtConn)
+	// success is reported by the mode-switch sentinel error.  The attach itself may legitimately fail when its
+	// (short) deadline passes before the dial and the ready frame are through — on a loaded machine that is no
+	// statement about the pipe, so such a run is void and the caller repeats it
+	aerr := tgtNode.VerifForwardToSourceNode(actx, tunnelID, "node-S", &types.Connection{ID: "conn-xnode"}, tgtConn)
+	if aerr == nil || !strings.Contains(aerr.Error(), "stream mode") {
+		return "attach-void"
+	}
 
 	write := func(w *net.TCPConn, chunks [][]byte) {
 		for i, d := range chunks {
@@ -224,8 +240,8 @@ func genXnode(out *vc.Out, r *vc.Rand, thorough bool) {
 	}
 	var cases []xnodeCase
 	for i := 0; i < n; i++ {
-		c := xnodeCase{dl: []int{40, 120, 250}[i%3], via: []string{"m", "p", "M", "P"}[(i/2+i)%4]}
-		c.gap = c.dl / 4
+		c := xnodeCase{dl: []int{150, 300, 600}[i%3], via: []string{"m", "p", "M", "P"}[(i/2+i)%4]}
+		c.gap = c.dl / 5
 		writes := 12 + r.Intn(8) // ≥ 3 × dl of traffic
 		size := []int{1, 100, 1000, 4096, 33000}[r.Intn(5)]
 		mk := func(k int) [][]byte {
